@@ -19,7 +19,7 @@ for c in M["checks"]:
 def run(job):
     pid, tier, cmd = job
     p = subprocess.run(cmd, shell=True, cwd="/verif", capture_output=True, text=True)
-    bad = [l for l in p.stdout.splitlines() if l.startswith(("VIOLATION", "ANALYSIS-ERROR"))]
+    bad = [l for l in p.stdout.splitlines() if l.startswith(("VIOLATION", "ANALYSIS-ERROR", "SELFTEST-NOTE"))]
     return pid, tier, p.returncode, (p.stdout.strip().splitlines() or [""])[-1][:150], bad
 
 
